@@ -1067,6 +1067,53 @@ pub fn gen_cap_server(tapes: &[Vec<u32>]) -> RawCase {
         }
         ops.push(CapOp::Yield(300));
         ops.push(CapOp::CensusFinal);
+    } else if return_variant && t.chance(1, 4) {
+        // a stream reserves far more than it writes, writes more than the connection window can carry, and ends with
+        // trailers while the tail of its body still waits for window; a connection-level grant then arrives: the
+        // stream may take what its body needs and not a byte more
+        grant = Grant::Never;
+        cfg.max_send_buffer = Some(1 << 20);
+        item = "return:trailers-with-blocked-body";
+        let (a, b) = (0usize, 1usize);
+        let body = 66000 + t.below(20000);
+        ops.push(CapOp::Reserve { s: a, n: body + 1000 + t.below(40000) });
+        ops.push(CapOp::WaitCap { s: a });
+        ops.push(CapOp::Send { s: a, n: body });
+        ops.push(CapOp::Reserve { s: b, n: 1 + t.below(30000) });
+        ops.push(CapOp::Yield(t.below(6)));
+        ops.push(CapOp::EndTrailers { s: a });
+        ops.push(CapOp::Yield(400));
+        ops.push(CapOp::WaitCap { s: b });
+        ops.push(CapOp::SendCap { s: b });
+        ops.push(CapOp::Reserve { s: b, n: 1 << 20 });
+        ops.push(CapOp::Yield(300));
+        ops.push(CapOp::CensusFinal);
+        script.push(PStep::Yield(150));
+        script.push(PStep::Frame { f: Frame::WinUp { stream: 0, inc: 20000 + t.below(30000) as u32, inc_r: false }, extra_flags: 0, r_bit: false });
+        script.push(PStep::Yield(1200));
+    } else if return_variant && t.chance(1, 4) {
+        // capacity limited by max_send_buffer_size: part of it is used, and the producer waits for it to come back
+        // when the buffer drains (windows are not the limit)
+        let m = *t.pick(&[100usize, 1000, 16384]);
+        cfg.max_send_buffer = Some(m);
+        grant = Grant::Eager;
+        item = "buffer-limited:wait-for-increase";
+        let a = 0usize;
+        ops.push(CapOp::Reserve { s: a, n: 5 * m + t.below(20000) });
+        ops.push(CapOp::WaitCap { s: a });
+        let rounds = 1 + t.below(4);
+        for _ in 0..rounds {
+            let j = 1 + t.below(m - 1);
+            ops.push(CapOp::Send { s: a, n: j });
+            if t.bool() {
+                ops.push(CapOp::Yield(t.below(3)));
+            }
+            // the reservation exceeds everything written, so the full buffer allowance m comes back once the
+            // written bytes drain: capacity() must rise above m - j again
+            ops.push(CapOp::WaitIncrease { s: a, above: m - j });
+        }
+        ops.push(CapOp::Census);
+        script.push(PStep::Yield(600));
     } else if return_variant {
         // nothing is ever granted: the 65535 bytes of connection window are all there is
         grant = Grant::Never;
@@ -1102,8 +1149,13 @@ pub fn gen_cap_server(tapes: &[Vec<u32>]) -> RawCase {
                 item = "return:lower";
             }
             2 => {
-                ops.push(CapOp::End { s: a });
-                item = "return:end-stream";
+                if t.bool() {
+                    ops.push(CapOp::End { s: a });
+                    item = "return:end-stream";
+                } else {
+                    ops.push(CapOp::EndTrailers { s: a });
+                    item = "return:end-with-trailers";
+                }
             }
             3 => {
                 ops.push(CapOp::Reset { s: a, code: 8 });
@@ -1250,7 +1302,7 @@ pub fn check_c16(case: &RawCase, rr: &RawRun, tap: &Tap, out: &mut Outcome) {
                         "C16",
                         "capacity/conservation",
                         format!("C16/capacity-lost/{}", item),
-                        format!("variant {}: at step {} (connection settled, every open stream reserving 1 MiB, stream windows 1 MiB, no connection-level grant ever) the streams hold {} bytes of capacity together ({}) although {} bytes of the connection window are neither on the wire nor granted back: {} bytes of send capacity were lost", item, ev.step, total, rest, credit, credit - total),
+                        format!("variant {}: at step {} (connection settled, every open stream reserving 1 MiB, stream windows 1 MiB, every connection-level grant counted) the streams hold {} bytes of capacity together ({}) although {} bytes of the connection window are neither on the wire nor granted back: {} bytes of send capacity were lost", item, ev.step, total, rest, credit, credit - total),
                     );
                 }
             }
@@ -1305,7 +1357,10 @@ pub fn check_c16(case: &RawCase, rr: &RawRun, tap: &Tap, out: &mut Outcome) {
     // (return / wake) the program itself finishes: every wait for capacity was woken
     let done = rr.run.events.iter().any(|ev| matches!(&ev.api, Api::ConnOp { op } if op == "cap-app done"));
     let started = rr.run.events.iter().any(|ev| ev.side == e && matches!(&ev.api, Api::SentHead { .. }));
-    if started && !done && rr.run.end == RunEnd::Quiescent {
+    // (the snapshot of unfinished tasks is taken at quiescence, before the diagnostic re-poll of every task: a program
+    // that only finishes because of that re-poll was not woken by the library)
+    let stuck = rr.run.unfinished.iter().any(|(_, g)| matches!(g, crate::sim::Group::ServerApp | crate::sim::Group::ClientApp));
+    if started && (!done || stuck) && rr.run.end == RunEnd::Quiescent {
         let last = rr.run.events.iter().rev().find(|ev| ev.side == e).map(|ev| format!("{:?}", ev.api)).unwrap_or_default();
         let sig = if item.starts_with("return:") { format!("C16/capacity-not-returned-to-waiting-stream/{}", &item[7..]) } else { "C16/capacity-wait-never-woken".to_string() };
         out.fail("C16", "capacity/wake", sig, format!("variant {}: the capacity program is still waiting at quiescence (last event {}), completes_when_repolled={:?}", item, &last[..last.len().min(120)], rr.run.completed_when_repolled));
